@@ -81,6 +81,15 @@ fn v3_connect_into_v5(c: v3::Connect, ctx: &mut Ctx) -> CaseResult {
     }
 
     partial_refusal::<V5>(&enc, gate, &want, &format!("{} CONNECT into the v5 family", proto), ctx)?;
+    // a dispatcher that has read the protocol block itself and offers the rest to the wrong family's known-protocol
+    // entry point gets the same typed refusal (not a panic, not a misparse), having consumed nothing more
+    {
+        let header = v5::Header::decode(&enc).map_err(|e| Violation::new(format!("v5 Header::decode failed on a v3 CONNECT frame: {:?}", e)))?;
+        let mut rest: &[u8] = &enc[gate..];
+        let before = rest.len();
+        let r = block_on(v5::Connect::decode_with_protocol(&mut rest, header, proto));
+        ensure!(matches!(&r, Err(e) if *e == want) && rest.len() == before, "v5 Connect::decode_with_protocol given protocol {} returned {:?} after consuming {} bytes instead of Err({:?}) at once", proto, r.map(|c| fam::render(&c)), before - rest.len(), want);
+    }
 
     // continue on the remaining bytes with the matching family's known-protocol entry point
     let mut rest: &[u8] = &enc[gate..];
@@ -171,6 +180,12 @@ fn v5_connect_into_v3(c: v5::Connect, ctx: &mut Ctx) -> CaseResult {
     }
 
     partial_refusal::<V3>(&enc, gate, &want, "v5.0 CONNECT into the v3 family", ctx)?;
+    {
+        let mut rest: &[u8] = &enc[gate..];
+        let before = rest.len();
+        let r = block_on(v3::Connect::decode_with_protocol(&mut rest, Protocol::V500));
+        ensure!(matches!(&r, Err(e) if *e == want) && rest.len() == before, "v3 Connect::decode_with_protocol given protocol v5.0 returned {:?} after consuming {} bytes instead of Err({:?}) at once", r.map(|c| fam::render(&c)), before - rest.len(), want);
+    }
 
     let header = v5::Header::decode(&enc).map_err(|e| Violation::new(format!("v5 Header::decode failed on a v5 CONNECT: {:?}", e)))?;
     let mut rest: &[u8] = &enc[gate..];
